@@ -15,6 +15,7 @@ import (
 	"net/http/httptest"
 	"os"
 	"path/filepath"
+	"regexp"
 	"sort"
 	"strings"
 	"sync"
@@ -50,6 +51,25 @@ type proxyStub struct {
 	slow     atomic.Bool
 	slowLeft atomic.Int32 // only the first five calls are slow: 1.5 s, past the 1 s budget
 	lastCall time.Time
+	// the proxy's include-body map as the admin calls leave it (PUT / DELETE /include_body_from with the
+	// expression as body; .../include_body_from_all and /remove_body_from_all for the whole traffic)
+	bodyFrom map[string]bool
+	bodyAll  bool
+}
+
+// shipsBody: would the proxy hand the body of a transaction "METHOD:::url" to the engine?
+func (p *proxyStub) shipsBody(subject string) bool {
+	p.mu.Lock()
+	defer p.mu.Unlock()
+	if p.bodyAll {
+		return true
+	}
+	for k := range p.bodyFrom {
+		if re, err := regexp.Compile(k); err == nil && re.MatchString(subject) {
+			return true
+		}
+	}
+	return false
 }
 
 func (p *proxyStub) RoundTrip(req *http.Request) (*http.Response, error) {
@@ -65,13 +85,32 @@ func (p *proxyStub) RoundTrip(req *http.Request) (*http.Response, error) {
 		p.log = append(p.log, req.Method+" "+req.URL.Path)
 	}
 	p.mu.Unlock()
+	text := ""
 	if req.Body != nil {
-		io.Copy(io.Discard, req.Body)
+		b, _ := io.ReadAll(req.Body)
 		req.Body.Close()
+		text = string(b)
 	}
 	code := 200
 	if fail && !strings.Contains(req.URL.Path, "healthcheck") {
 		code = 500
+	}
+	if code == 200 {
+		p.mu.Lock()
+		if p.bodyFrom == nil {
+			p.bodyFrom = map[string]bool{}
+		}
+		switch {
+		case strings.HasSuffix(req.URL.Path, "/include_body_from") && req.Method == http.MethodPut:
+			p.bodyFrom[text] = true
+		case strings.HasSuffix(req.URL.Path, "/include_body_from") && req.Method == http.MethodDelete:
+			delete(p.bodyFrom, text)
+		case strings.HasSuffix(req.URL.Path, "/include_body_from_all") && req.Method == http.MethodPut:
+			p.bodyAll = true
+		case strings.HasSuffix(req.URL.Path, "/remove_body_from_all"):
+			p.bodyAll = false
+		}
+		p.mu.Unlock()
 	}
 	return &http.Response{StatusCode: code, Status: fmt.Sprintf("%d", code), Body: io.NopCloser(strings.NewReader("ok")), Header: http.Header{}, Request: req}, nil
 }
@@ -183,7 +222,36 @@ func TestMain(m *testing.M) {
 
 // ---- configuration files ---------------------------------------------------------------------------
 
+// flowYAML: a marker that ends in "+b" gives a flow whose request path also has a processor that needs the
+// request body (DataSanitation behind the Filter's hit branch): the proxy must then be told to ship the body.
 func flowYAML(name, url, marker string) string {
+	y := flowYAMLPlain(name, url, marker)
+	if !strings.HasSuffix(marker, "+b") {
+		return y
+	}
+	y = strings.Replace(y, "  Gen:\n", "  San:\n    processor: DataSanitation\n  Gen:\n", 1)
+	return strings.Replace(y, `          condition: hit
+      to:
+        stream:
+          name: globalStream
+          at: end
+`, `          condition: hit
+      to:
+        processor:
+          name: San
+    - from:
+        processor:
+          name: San
+      to:
+        stream:
+          name: globalStream
+          at: end
+`, 1)
+}
+
+func flowNeedsBody(text string) bool { return strings.Contains(text, "processor: DataSanitation") }
+
+func flowYAMLPlain(name, url, marker string) string {
 	return fmt.Sprintf(`name: %s
 filter:
   url: "%s"
@@ -476,7 +544,11 @@ func genCase() *rapid.Generator[tcase] {
 		c := tcase{Initial: initialConfig{Flows: map[string]string{}}}
 		ni := rapid.IntRange(1, 3).Draw(t, "ninitial")
 		for i := 0; i < ni; i++ {
-			c.Initial.Flows[fmt.Sprintf("f%d.yaml", i)] = flowYAML(fmt.Sprintf("f%d", i), fmt.Sprintf("h.com/f%d", i), fmt.Sprintf("m%d", i))
+			m := fmt.Sprintf("m%d", i)
+			if rapid.IntRange(0, 3).Draw(t, "initial-needs-body") == 0 {
+				m += "+b"
+			}
+			c.Initial.Flows[fmt.Sprintf("f%d.yaml", i)] = flowYAML(fmt.Sprintf("f%d", i), fmt.Sprintf("h.com/f%d", i), m)
 		}
 		if rapid.IntRange(0, 2).Draw(t, "iq") == 1 {
 			c.Initial.Quotas = map[string]string{"q.yaml": quotaYAML("Q1", 1000)}
@@ -515,7 +587,11 @@ func genCase() *rapid.Generator[tcase] {
 				pf.Bad = true
 				pf.Text = strings.Replace(flowYAML(fmt.Sprintf("f%d", idx), fmt.Sprintf("h.com/f%d", idx), "mX"), "GenerateResponse", "NoSuchProcessor", 1)
 			default:
-				pf.Text = flowYAML(fmt.Sprintf("f%d", idx), fmt.Sprintf("h.com/f%d", idx), fmt.Sprintf("m%d-%d", idx, rapid.IntRange(1, 3).Draw(t, "ver")))
+				m := fmt.Sprintf("m%d-%d", idx, rapid.IntRange(1, 3).Draw(t, "ver"))
+				if rapid.IntRange(0, 2).Draw(t, "needs-body") == 0 {
+					m += "+b" // this revision of the flow needs the request body
+				}
+				pf.Text = flowYAML(fmt.Sprintf("f%d", idx), fmt.Sprintf("h.com/f%d", idx), m)
 			}
 			dup := false
 			for _, o := range c.Flows {
@@ -818,6 +894,16 @@ func runCase(r *ev.Recorder, c tcase) (nontrivial bool, obs observation, err err
 	want := behaviourOf(c.expectedAfterSuccess())
 	if !eqMap(behAfter, want) {
 		return true, obs, fmt.Errorf("update answered %d but the running flows %v are not those of the new configuration %v", obs.Status, behAfter, want)
+	}
+	// ... and the proxy was told what the new flows need: a flow that needs the request body is handled by the
+	// new configuration only if the proxy ships the body for its transactions
+	for _, text := range c.expectedAfterSuccess() {
+		if f := parseFlowFile(text); f.Valid && flowNeedsBody(text) {
+			r.Class("running flow needs the request body")
+			if !stub.shipsBody("GET:::" + f.URL) {
+				return true, obs, fmt.Errorf("update answered %d and flow %s of the new configuration needs the request body, but the proxy was not told to ship it for GET %s (no include_body_from registration matches): its transactions are handled by the new flow with the old registration", obs.Status, f.URL, f.URL)
+			}
+		}
 	}
 	return c.InFlight || len(c.Flows) > 0, obs, nil
 }
